@@ -2,9 +2,9 @@ package main
 
 import (
 	"fmt"
-	"sort"
 	"go/types"
 	"math"
+	"sort"
 	"strconv"
 	"strings"
 	"unicode"
